@@ -4,30 +4,20 @@
 
    What is proven is the LOGIC of termination, allocation and partial operations of the
    modelled code.  Stack exhaustion, allocator aborts and panics inside dependencies are
-   runtime behaviour observed by running the real crate (lib/props/c05.py), not proven.
-
-   Full statement for alias chasing (false of the code, see C05_chase_refuted):
-     forall e hit n, exists f0, forall f, f0 <= f -> chase hit f e n <> OutOfFuel.
-   The proven part carries the excluded class as the boolean predicate [acyclic_alias]. *)
+   runtime behaviour observed by running the real crate (lib/props/c05.py), not proven. *)
 From Cddl Require Import Base.Bytes Cbor.Wire Cbor.DecodeProofs Generated.RobustConsts
   Robust.Chase Robust.Alloc Robust.Arith Robust.RobustProofs.
 Open Scope N_scope.
 
-(* ---------- cyclic rule references: the un-guarded is_ident_* recursion ---------- *)
-Theorem C05_chase_terminates_partial : forall e, acyclic_alias e = true ->
-  exists f0, f0 = chase_fuel e /\ forall hit n f, (f0 <= f)%nat -> chase hit f e n <> OutOfFuel.
+(* ---------- cyclic rule references terminate: the guarded is_ident_* recursion (d9284e7) ---------- *)
+(* full statement: every environment, every helper, every start name *)
+Theorem C05_chase_terminates : forall e hit n f, (chase_fuel e <= f)%nat -> chase hit f e n <> OutOfFuel.
 Proof. exact chase_terminates. Qed.
 
-Theorem C05_chase_seq_terminates_partial : forall e, acyclic_alias e = true ->
-  forall hits n f, (chase_fuel e <= f)%nat -> chase_seq hits f e n <> OutOfFuel.
+Theorem C05_chase_seq_terminates : forall e hits n f, (chase_fuel e <= f)%nat -> chase_seq hits f e n <> OutOfFuel.
 Proof. exact chase_seq_terminates. Qed.
 
-(* a = b .size 3 / b = a : the call never returns (stack overflow of the real validator) *)
-Theorem C05_chase_refuted :
-  exists e n, acyclic_alias e = false /\ forall f, chase_seq size_hits f e n = OutOfFuel.
-Proof. exact chase_refuted. Qed.
-
-(* acyclic is not enough for a polynomial bound: 41 rules, more than 2^40 calls *)
+(* termination is not a polynomial bound: acyclic, 41 rules, more than 2^40 calls (`any` has no memo) *)
 Theorem C05_calls_exponential_refuted :
   exists e n, acyclic_alias e = true /\ length e = 41%nat /\ 2 ^ 40 <= calls e n.
 Proof. exact calls_exponential_refuted. Qed.
@@ -54,21 +44,18 @@ Theorem C05_decode_terminates : forall bs, wf_bytes bs ->
   ((exists v, decode_cbor bs = Ok v) \/ (exists k, decode_cbor bs = Err k /\ k <> EFuel)).
 Proof. exact decode_terminates. Qed.
 
-(* ---------- partial arithmetic on the validation paths ---------- *)
-(* json.rs: n * 1000 for prelude type `time` (debug builds panic exactly on this class) *)
-Theorem C05_mul1000_panics_iff : forall n, in_i64 n = true ->
+(* ---------- checked arithmetic on the validation paths (fe9328d, 9c012db) ---------- *)
+(* json.rs: n.checked_mul(1000) for prelude type `time` is None exactly on this class (-> validation error) *)
+Theorem C05_mul1000_none_iff : forall n, in_i64 n = true ->
   (mul1000_checked n = None <-> mul1000_overflows n = true).
-Proof. exact mul1000_panics_iff. Qed.
+Proof. exact mul1000_none_iff. Qed.
 
-Theorem C05_mul1000_refuted : exists n, in_i64 n = true /\ mul1000_checked n = None.
-Proof. exact mul1000_refuted. Qed.
-
-(* cbor.rs: value.try_into().unwrap() for tag 1 under prelude type `time` *)
+(* cbor.rs: i64::try_from(value) for tag 1 under prelude type `time` *)
 Theorem C05_try_into_i64_total : forall z, in_i64 z = true -> try_into_i64 z = Some z.
 Proof. exact try_into_i64_total. Qed.
 
-Theorem C05_try_into_i64_refuted : exists z, in_cbor_int z = true /\ try_into_i64 z = None.
-Proof. exact try_into_i64_refuted. Qed.
+Theorem C05_try_into_i64_none_iff : forall z, try_into_i64 z = None <-> in_i64 z = false.
+Proof. exact try_into_i64_none_iff. Qed.
 
 (* json.rs / cbor.rs: `v as u32` of a .size argument *)
 Theorem C05_as_u32_exact_iff : forall v, (0 <= v)%Z -> (as_u32 v = v <-> (v < 2 ^ 32)%Z).
@@ -81,26 +68,26 @@ Theorem C05_size_uint_refuted : exists v v', in_u64 v = true /\ in_u64 v' = true
   as_u32 v <> v /\ size_uint_accepts v 5 = false /\ as_u32 v' = v' /\ size_uint_accepts v' 5 = false.
 Proof. exact size_uint_refuted. Qed.
 
-(* control.rs plus_operation: `.plus` on two literals of the schema (debug builds panic on overflow) *)
+(* control.rs plus_operation: checked_add on two literals of the schema; None -> Err *)
 Theorem C05_plus_checked_total : forall a b, (0 <= a < 2 ^ 62)%Z -> (0 <= b < 2 ^ 62)%Z -> plus_checked a b = Some (a + b)%Z.
 Proof. exact plus_checked_total. Qed.
 
-Theorem C05_plus_checked_refuted : exists a b a' b', in_u64 a = true /\ in_u64 b = true /\ plus_checked a b = None /\
-  in_i64 a' = true /\ in_i64 b' = true /\ plus_checked a' b' = None.
-Proof. exact plus_checked_refuted. Qed.
+Theorem C05_plus_checked_uint_none_iff : forall a b, (0 <= a)%Z -> (0 <= b)%Z ->
+  (plus_checked a b = None <-> (2 ^ 64 <= a + b)%Z).
+Proof. exact plus_checked_uint_none_iff. Qed.
 
 (* ---------- non-vacuity ---------- *)
-(* an acyclic alias environment with a choice, a chain and an undefined name *)
-Example C05_acyclic_example :
-  acyclic_alias [(0, [Alias 1; Other]); (1, [Alias 2; Alias 3]); (2, [Other]); (3, [Alias 9])] = true
-  /\ chase [100] 5 [(0, [Alias 1; Other]); (1, [Alias 2; Alias 3]); (2, [Other]); (3, [Alias 100])] 0 = Yes
-  /\ chase [100] 5 [(0, [Alias 1; Other]); (1, [Alias 2; Alias 3]); (2, [Other]); (3, [Alias 9])] 0 = No.
-Proof. vm_compute. repeat split. Qed.
-
-(* a self-reference hidden behind a choice that answers first is not reached (`any` stops) *)
-Example C05_short_circuit_example :
-  acyclic_alias [(0, [Alias 100; Alias 0])] = false /\ chase [100] 2 [(0, [Alias 100; Alias 0])] 0 = Yes.
+(* an alias environment with a choice, a chain and an undefined name *)
+Example C05_chase_example :
+  chase [100] 6 [(0, [Alias 1; Other]); (1, [Alias 2; Alias 3]); (2, [Other]); (3, [Alias 100])] 0 = Yes
+  /\ chase [100] 6 [(0, [Alias 1; Other]); (1, [Alias 2; Alias 3]); (2, [Other]); (3, [Alias 9])] 0 = No.
 Proof. vm_compute. split; reflexivity. Qed.
+
+(* a = b .size 3 / b = a : overflowed the stack before the guard, answers "no" now; a cycle behind a hit is not reached *)
+Example C05_cycle_example :
+  acyclic_alias cyc2 = false /\ chase_seq size_hits (chase_fuel cyc2) cyc2 1 = No
+  /\ chase [100] 3 [(0, [Alias 100; Alias 0])] 0 = Yes /\ chase [100] 3 [(0, [Alias 0; Alias 100])] 0 = Yes.
+Proof. vm_compute. repeat split. Qed.
 
 (* a hostile head: 2^36 bytes announced, 3 present: one capped request, one failed chunk *)
 Example C05_alloc_example :
